@@ -748,8 +748,9 @@ pub fn record_directed(out: &mut TraceOut, thorough: bool) -> Value {
     if thorough {
         // 65536 + 5 chunks in one transfer (the 16-bit counter wraps)
         let mut v = vec![Message::RequestOperation(a, Operation::ReceiveConfig), sd(0, &cfg_tiny()), Message::DataChunksSent(ChunkCount(1)), Message::RequestOperation(a, Operation::ReceivePixels)];
-        for _ in 0..65541u32 {
-            v.push(sd(0, &[1, 16, 0, 0, 0, 0, 0, 0, 0, 0, 0, 0, 255, 255, 255, 255]));
+        // (one-byte chunks at a fixed non-zero offset: nothing is ever flushed into a page, so the projection stays small)
+        for i in 0..65541u32 {
+            v.push(sd(16, &[(i % 251) as u8]));
         }
         v.push(Message::DataChunksSent(ChunkCount(5)));
         v.push(Message::QueryState(a));
